@@ -41,6 +41,9 @@ def sessions_for(exe, tier, seed):
         return S
     A = P.gen_parallel(exe, [f"C08/a/{base + i}" for i in range(n_long)], long_fn)
     B = P.gen_parallel(exe, [f"C08/b/{base + i}" for i in range(n_short)], short_fn)
+    # directed: the FIN handshake completes while received bytes are still unread (with and without loss)
+    B = B + P.gen_parallel(exe, [f"C08/h/{base + i}" for i in range(max(n_short // 4, 16))],
+                           lambda live, rng: P.halfclose_unread_session(live, rng, lossy=rng.random() < 0.5))
     return A, B
 
 
